@@ -92,6 +92,7 @@ def gen_plan(seed: int, tier: str, enumerate_first: bool = True) -> dict:
         "frame": r.choice(["max", "mixed", 1, 16, 1023]),
         "zero_latency": r.choice([0, 0, 0.3]),
         "n_chars": 24,
+        "rst_window_hops": r.choice([0, 0, 1, 3]),
     }
     if faulty:
         profile["resp_delay"] = [r.choice([0.0, 0.2, 0.5]), r.choice([0.0, 5.0, 29.0, 29.9]), r.choice([10.0, 30.0, 30.1, 31.0, 45.0])]
@@ -122,6 +123,9 @@ def gen_plan(seed: int, tier: str, enumerate_first: bool = True) -> dict:
             op = {"op": "event", "n": r.choice([1, 1, 2, 5]), "ids": [[1, 10 + r.randrange(3)]], "raw": r.choice([None, None, None, "empty", "nonjson"])}
         elif faulty and x < 0.80:
             op = {"op": r.choice(["rst", "fin"])}
+            if op["op"] == "rst" and profile.get("rst_window_hops"):
+                op["then"] = r.choice([{"op": "cancel_call"}, {"op": "cancel_call"}, {"op": "get", "ids": [[1, 10]]}, {"op": "close"}])
+                op["then_ticks"] = r.choice([0, 0, 1, 2])
         elif faulty and x < 0.84:
             op = {"op": "unsolicited"}
         elif faulty and x < 0.88:
